@@ -121,6 +121,12 @@ def histories(ctx):
     for ops in G.enumerate_orderings(cfg, SHUT_KINDS, 8 if ctx.tier == 'quick' else 10, 20000, allow_nextpage=False, shutdown_at=2):
         yield (cfg, ops, False, 'exhaustive')
     capped = capped or G.enumerate_orderings.capped
+    # re-prepare: UNPREPARED answers, PREPARE answers of every kind, Session.shutdown() at any point
+    cfg = {'plan': [1, 2, 3], 'timeout': 1000, 'specs': [], 'pools': {1: 'ok', 2: 'ok', 3: 'ok'}, 'now': 0}
+    for ops in G.enumerate_orderings(cfg, [('unprepared', None, None), ('rows', False, None)], 8 if ctx.tier == 'quick' else 11, 20000,
+                                     allow_nextpage=False, shutdown_at=2, pkinds=('prepared', 'mismatch', 'error', 'connerr')):
+        yield (cfg, ops, False, 'exhaustive')
+    capped = capped or G.enumerate_orderings.capped
     ctx.exhaustive = not capped
     n = 600 if ctx.tier == "quick" else 8000
     for _ in range(n):
